@@ -306,7 +306,7 @@ Section Acc.
   Definition a_conventional_next_hop : res (option N) := a_u32 3.
 
   (* PaMap::from_update_pdu: every attribute except MP_REACH / MP_UNREACH, keyed by type code
-     (BTreeMap: ascending, a later attribute of the same code replaces an earlier one) *)
+     (BTreeMap: ascending; of a repeated type code the first occurrence is kept) *)
   Fixpoint pamap_insert (m : list (N * pattr)) (c : N) (a : pattr) : list (N * pattr) :=
     match m with
     | [] => [(c, a)]
@@ -315,11 +315,13 @@ Section Acc.
       else if c <? c' then (c, a) :: m
       else (c', a') :: pamap_insert tl c a
     end.
+  Definition pamap_has (m : list (N * pattr)) (c : N) : bool := existsb (fun e => fst e =? c) m.
   Fixpoint pamap_fill (l : list (res wattr)) (m : list (N * pattr)) : res (list (N * pattr)) :=
     match l with
     | [] => Ok m
     | Ok w :: tl =>
       if (wattr_code w =? 14) || (wattr_code w =? 15) then pamap_fill tl m
+      else if pamap_has m (wattr_code w) then pamap_fill tl m      (* RFC 7606 3.g: the first occurrence counts *)
       else let* o := to_owned w in pamap_fill tl (pamap_insert m (wattr_code w) o)
     | Err :: _ => Err
     | Panic :: _ => Panic
